@@ -13,6 +13,7 @@ use crate::exercise_mbi::{exercise_mbi, MbiOpts};
 /// Returns the two decoy transcripts (rendered), for callers that want to
 /// compare a later repetition with the first run.
 pub fn warmup() -> (String, String) {
+    crate::elfnames::install();
     let tags: Vec<Vec<u8>> = (1u32..=21).map(|k| conformant_tag(k, 0xDEC0 + k as u64, 2, 0x0201_0000 | k)).collect();
     let region = mbi(&tags, 0, 0, true);
     let a: &'static Aligned = Box::leak(Box::new(Aligned::new(&region)));
